@@ -120,11 +120,14 @@ def mkreq(r, proto):
     return rt.mk_ietf(bytes(r.getrandbits(8) for _ in range(32)), 1024)
 
 
-def closed_loop(port, r_seed, nclients, rounds, stop_evt=None, per_timeout=1.5):
-    """nclients concurrent closed-loop reference clients; returns list of (proto, request, [replies])"""
+def closed_loop(port, r_seed, nclients, rounds, stop_evt=None, per_timeout=4.0, barrier=False):
+    """nclients concurrent closed-loop reference clients; returns list of (proto, request, [replies]).
+    barrier=True: the clients of a round send at the same moment (a burst of nclients datagrams,
+    far more than batch_size when that is small), then all wait for their replies."""
     import random
     results = []
     lock = threading.Lock()
+    bar = threading.Barrier(nclients) if barrier else None
 
     def one(ci):
         r = random.Random(r_seed * 1000 + ci)
@@ -137,6 +140,11 @@ def closed_loop(port, r_seed, nclients, rounds, stop_evt=None, per_timeout=1.5):
             proto = "Google" if (ci + k) % 2 else "RfcDraft13"
             req = mkreq(r, proto)
             reps = []
+            if bar is not None:
+                try:
+                    bar.wait(timeout=10)
+                except threading.BrokenBarrierError:
+                    pass
             try:
                 s.send(req)
                 reps.append(s.recv(4096))
@@ -198,13 +206,26 @@ def run_c18(ctx):
     r = ctx.rng
     grid = [(1, 4), (2, 16), (4, 32), (8, 64), (16, 64)] if not ctx.thorough else [(w, c) for w in (1, 2, 4, 8, 16) for c in (1, 8, 32, 64)]
     rounds = 6 if not ctx.thorough else 25
-    for nw, nc in grid:
-        srv = Server({"num_workers": nw, "batch_size": r.choice([1, 8, 64])})
+    workdir = tempfile.mkdtemp(prefix="c18", dir=vlib.BUILD)
+    # (workers, clients, extra settings, rounds): besides the plain grid, batch sizes far below the number
+    # of concurrent clients (several drain passes per wake-up on every worker) and per-client statistics
+    # with a short status interval (all workers hand snapshots to the shared queue several times a second)
+    plan = [(nw, nc, {"batch_size": r.choice([1, 8, 64])}, rounds) for nw, nc in grid]
+    plan += [(1, 32, {"batch_size": 2}, rounds), (4, 48, {"batch_size": 2}, rounds),
+             (1, 32, {"batch_size": 4, "_burst": 1}, 5), (4, 48, {"batch_size": 2, "_burst": 1}, 5),
+             (2, 64, {"batch_size": 64, "_burst": 1}, 5),
+             (4, 24, {"batch_size": 64, "client_stats": "on", "persistence_directory": workdir, "status_interval": 1}, 60),
+             (2, 16, {"batch_size": 8, "client_stats": "on", "persistence_directory": workdir, "status_interval": 2}, 60)]
+    for nw, nc, extra, rounds in plan:
+        extra = dict(extra)
+        burst = bool(extra.pop("_burst", 0))
+        srv = Server(dict({"num_workers": nw}, **extra), workdir=workdir)
         rep = {"cmd": "load", "settings": {k: str(v) for k, v in srv.settings.items()}, "clients": nc, "rounds": rounds}
         try:
             if not srv.wait_ready():
                 ctx.violation("property", "server with %d workers did not start serving" % nw, dict(rep, log=srv.log()[-1500:])); continue
-            res = closed_loop(srv.port, ctx.seed * 100 + nw, nc, rounds)
+            res = closed_loop(srv.port, ctx.seed * 100 + nw, nc, rounds, barrier=burst)
+            rep["burst"] = burst
             th = srv.threads()
             workers = sorted({t for t in th if t.startswith("worker-")})   # the timer thread of each worker shares its name
             if len(workers) != nw:
@@ -219,13 +240,15 @@ def run_c18(ctx):
             verify_pairs(ctx, pairs, rep, "concurrent load")
             ctx.count("load:%dw" % nw, len(pairs))
             if nw >= 2 and nc >= 2:
-                ctx.nontriv("%d:%d:%d" % (nw, nc, len(pairs)))
+                ctx.nontriv("%d:%d:%d:%s:%s" % (nw, nc, len(pairs), sorted(extra.items()), burst))
             ctx.traces_validated += len(pairs)
         finally:
             rc, dt, log = srv.stop()
             if "panicked" in log or rc != 0:
                 ctx.violation("property", "server under load: exit status %s, panic output: %s" % (rc, "panicked" in log), dict(rep, log=log[-1500:]))
     ctx.sample({"grid": grid, "rounds_per_client": rounds})
+    import shutil
+    shutil.rmtree(workdir, ignore_errors=True)
     proof_verdict(ctx)
 
 
@@ -346,6 +369,28 @@ def run_c15(ctx):
         if nw >= 2 or "health_check_port" in s:
             ctx.nontriv(json.dumps(s, sort_keys=True))
     verify_pairs(ctx, allpairs, {"cmd": "config-run"}, "configuration grid")
+    # ---- health listener, deterministically: an in-process Server, n TCP connections established
+    # BEFORE one process_events() call (so they are folded into ONE edge-triggered readiness event);
+    # every one of them must be answered by that call (Model/Process.v health_run: accept until WouldBlock)
+    sessions = []
+    for n in ((3, 17, 40, 100) if not ctx.thorough else (1, 2, 16, 17, 33, 64, 100, 120)):
+        sessions.append(["serve new 8 0 3 0 %s 1" % SEED, "serve health %d" % n, "serve health 5",
+                         "serve run 1 0:%s" % rt.hx(rt.mk_classic(os.urandom(64))), "serve drop"])
+    for sess, out in zip(sessions, vlib.run_sessions(vlib.HARNESS, sessions, "c15h", shards=4)):
+        ctx.evaluations += 1
+        rep = {"cmd": "health-burst", "lines": sess, "out": [o[:300] for o in out]}
+        hs = [o for o in out if " HEALTH " in o]
+        okh = len(hs) == 2
+        for o in hs:
+            d = dict(t.split("=") for t in o.split(" HEALTH ")[1].split())
+            if d["connected"] != d["answered"]:
+                okh = False
+        if not okh:
+            ctx.violation("property", "health check listener did not answer every connection of a burst handled in one readiness event: %s" % [o.split(" HEALTH ")[-1] for o in hs], rep); continue
+        if not out[3].startswith("OK") or " R=0:" not in out[3]:
+            ctx.violation("property", "time service did not continue after a health-check burst", rep); continue
+        ctx.nontriv("health-burst:" + sess[1])
+        ctx.traces_validated += 1
     ctx.sample({"example.cfg": outs[0]["settings"], "threads": outs[0].get("threads_end"), "health_burst": outs[0].get("health_burst")})
     import shutil
     shutil.rmtree(workdir, ignore_errors=True)
@@ -380,7 +425,10 @@ def run_c19(ctx):
         sig, nw, cs, mode, delay = case
         settings = {"num_workers": nw, "batch_size": 64}
         if cs:
-            settings["client_stats"] = "on"; settings["persistence_directory"] = workdir; settings["status_interval"] = 10
+            settings["client_stats"] = "on"; settings["persistence_directory"] = workdir
+            si = (None, 10, 1)[(int(sig) + nw + int(delay * 100)) % 3]      # None: the documented default, 600 s
+            if si is not None:
+                settings["status_interval"] = si
         srv = Server(settings, workdir=workdir)
         out = {"case": [int(sig), nw, cs, mode, delay]}
         flood = None
